@@ -9,14 +9,28 @@
     dict_pruned, filters_shape, corrupt_is_error, and the witnesses of the repaired defects
     (flate_old_glue_truncates, hex_old_witness, hex_old_parity_witness, a85_old_witness)      — this file;
     a85_roundtrip (+ a85_instance, encodeA85_conformant, a85_decode_encode)                    — Lemmas/FiltersA85.lean;
-    inflate_stored_roundtrip, adler_model_eq_spec (+ example)                                  — Lemmas/FiltersInflate.lean.
-  NOT a theorem: Huffman-coded zlib streams (`LayerEnc.flateAny` takes the Lean inflate's verdict
-  as hypothesis; the tie to the real zlib is the correspondence run).
+    inflate_stored_roundtrip, adler_model_eq_spec (+ example)                                  — Lemmas/FiltersInflate.lean;
+    ASCII85 rejection side (a85Decode_cases, a85_illegal_char_any, a85_uniws_interior, a85_stray_tilde,
+    a85_z_inside_group(_spec), a85_group_overflow, a85_single_digit_final, a85Crate_leading_uniws)
+                                                                                               — Lemmas/A85Reject.lean;
+    rejection of damaged stored-block zlib streams (inflate_stored_truncated, inflate_stored_adler_*,
+    inflate_stored_len_*, inflate_header_*)                                                    — Lemmas/InflateReject.lean;
+    fixed-Huffman round trip (inflate_fixed_roundtrip(_final), inflate_fixed_literals_*,
+    inflate_zlibFixedLiterals_roundtrip) over the spec-side encoder Spec/DeflateFixed.lean     — Lemmas/InflateFixed.lean
+    (bit reader / code tables: Lemmas/InflateFixedBits.lean);
+    all of them surfaced at the level of the filter glue below (`a85_corrupt_is_error`,
+    `flate_stored_corrupt_is_error`, `flate_fixed_roundtrip`, `LayerEnc.flateFixed`).
+  NOT a theorem: dynamic-Huffman zlib streams (`LayerEnc.flateAny` takes the Lean inflate's verdict
+  as hypothesis; the tie to the real zlib is the correspondence run), and corruptions of
+  Huffman-coded streams.
 -/
 import Parsley.Model.Filters
 import Parsley.Spec.Filters
 import Parsley.Lemmas.FiltersA85
 import Parsley.Lemmas.FiltersInflate
+import Parsley.Lemmas.A85Reject
+import Parsley.Lemmas.InflateReject
+import Parsley.Lemmas.InflateFixed
 namespace Parsley.C06
 open Parsley Parsley.Filters Parsley.FiltersSpec
 
@@ -269,6 +283,23 @@ theorem flateDecode_err (ext : Ext) (o : Option Dict) (input : Bytes) (k : ErrK)
   rw [h]
   exact flate_glue_rejects ext _ o _ (zlibDec_fails _)
 
+theorem readToEnd_err_now {σ : Type} (D : StreamDec σ) (s : σ) (k : ErrK) (h : D.read s = .err k) (acc : Bytes) :
+    readToEnd D s acc = .err k := by
+  rw [readToEnd]
+  split
+  · rename_i heq; rw [h] at heq; cases heq
+  · rename_i k' heq; rw [h] at heq; cases heq; rfl
+  · rename_i heq; rw [h] at heq; cases heq
+
+/-- ... and the error is a `TransformError`, whatever the parameters say -/
+theorem flateDecode_err_transform (ext : Ext) (o : Option Dict) (input : Bytes) (k : ErrK)
+    (h : Inflate.inflate input = .err k) : flateDecode ext o input = .err .transform := by
+  unfold flateDecode zlibInit
+  rw [h]
+  simp only
+  unfold flateGlue
+  rw [readToEnd_err_now (zlibDec 32767) ⟨[], true⟩ .transform (by simp [zlibDec])]
+
 -- non-vacuity: a decoder that hands out a 5-byte payload in chunks of 2
 example : Yields (zlibDec 1) ⟨[1, 2, 3, 4, 5], false⟩ [1, 2, 3, 4, 5] := zlibDec_yields 1 5 _ (by decide)
 
@@ -448,7 +479,13 @@ inductive LayerEnc : Bytes → Bytes → Bytes → Prop
   /-- a zlib stream of stored blocks (any partition), followed by anything -/
   | flateStored {parts : List Bytes} {trailing : Bytes} :
       (∀ p ∈ parts, p.length ≤ 65535) → LayerEnc nFlate parts.flatten (zlibStored parts ++ trailing)
-  /-- any other zlib stream, *as far as the modelled inflate decodes it to `x`* (Huffman-coded
+  /-- a zlib stream of fixed-Huffman blocks (RFC 1951 3.2.6) written by the specification's encoder
+      from any valid LZ77 factorisation of `x` (non-final blocks `blocks`, final block `last`),
+      followed by anything -/
+  | flateFixed {blocks : List (List DeflateFixed.Tok)} {last : List DeflateFixed.Tok} {x trailing : Bytes} :
+      DeflateFixed.resolveBlocks (blocks ++ [last]) [] = some x →
+      LayerEnc nFlate x (DeflateFixed.zlibFixedF blocks last x ++ trailing)
+  /-- any other zlib stream, *as far as the modelled inflate decodes it to `x`* (dynamic-Huffman
       streams: tied to the real zlib by the correspondence run, not by a theorem) -/
   | flateAny {x e : Bytes} : Inflate.inflate e = .ok x → LayerEnc nFlate x e
 
@@ -474,6 +511,9 @@ theorem layer_roundtrip (ext : Ext) (f : Filter) (x e : Bytes) (h : LayerEnc f.n
   | flateStored h =>
     simp only [if_true]
     exact flateDecode_ok ext _ _ _ hp (inflate_stored_roundtrip _ _ h)
+  | flateFixed h =>
+    simp only [if_true]
+    exact flateDecode_ok ext _ _ _ hp (inflate_fixed_roundtrip_final _ _ _ _ h)
   | flateAny h =>
     simp only [if_true]
     exact flateDecode_ok ext _ _ _ hp h
@@ -614,12 +654,113 @@ theorem corrupt_is_error :
   ⟨hex_illegal_char, hex_missing_eod, a85_misaligned_z, flate_glue_rejects, flateDecode_err,
    fun ext pre f post payload mid content k => chain_error_propagates ext pre f post payload mid content k⟩
 
--- executed instances (tests, not proofs): `uuuuu~>` and `s8W-"~>` (group ≥ 2^32, caught overflow panic),
--- `{` in ASCII85, a zlib stream cut short, a flipped Adler-32 byte
+-- executed instances: `uuuuu~>` and `s8W-"~>` (group ≥ 2^32, caught overflow panic), `{` in ASCII85
+-- (since C06c these are instances of theorems: `a85_corrupt_is_error` clauses 7 and 2 below)
 example : a85Decode [0x75, 0x75, 0x75, 0x75, 0x75, 0x7E, 0x3E] = .err .transform := by decide
 example : a85Decode [0x73, 0x38, 0x57, 0x2D, 0x22, 0x7E, 0x3E] = .err .transform := by decide
 example : a85Decode [0x73, 0x38, 0x57, 0x2D, 0x21, 0x7E, 0x3E] = .ok [0xFF, 0xFF, 0xFF, 0xFF] := by decide
 example : a85Decode [0x38, 0x7B, 0x7E, 0x3E] = .err .transform := by decide
+
+/-! ### corrupt ASCII85, at full strength (proofs: Lemmas/A85Reject.lean)
+
+  What the model of the repaired glue + `ascii85::decode` does with every kind of damage, for ALL
+  inputs.  Where the real code (and hence the model: the correspondence run compares them on
+  exactly these shapes) is more lenient than ISO 32000-1 7.4.3, the theorem states the lenient
+  behaviour:
+   * a lone final digit `!`..`r` is dropped silently (clause 6), only `s`, `t`, `u` are rejected;
+   * VT, U+0085, U+00A0 are trimmed when they lead or trail the staged text (`a85Crate_leading_uniws`),
+     and rejected between two visible bytes (clause 3);
+   * bytes after the EOD are not ignored: an illegal one there is an error too (clause 2 has no
+     "before the EOD" restriction), a legal one is decoded;
+   * a missing EOD, a leading `<~`, a repeated `~>` are accepted (executed examples in the lemma file). -/
+
+open Parsley.C06.A85 in
+/-- **a85_corrupt_is_error.** -/
+theorem a85_corrupt_is_error :
+    -- 1. no panic escapes and every failure is a `TransformError`
+    (∀ x : Bytes, (∃ out, a85Decode x = .ok out) ∨ a85Decode x = .err .transform) ∧
+    -- 2. a byte outside `!`..`u` that is not `z`, `~` or white space (PDF's or `str::trim`'s): at ANY position
+    (∀ (pre rest : Bytes) (c : UInt8), (c.toNat < 33 ∨ c.toNat > 117) → c ≠ 0x7A → Filters.isWs c = false →
+        isUniWs c = false → c ≠ 0x7E → a85Decode (pre ++ c :: rest) = .err .transform) ∧
+    -- 3. VT / U+0085 / U+00A0 between two visible bytes
+    (∀ (pre rest : Bytes) (c : UInt8), isUniWs c = true → Filters.isWs c = false →
+        (∃ x ∈ pre, Filters.isWs x = false ∧ isUniWs x = false) →
+        (∃ y ∈ rest, Filters.isWs y = false ∧ isUniWs y = false) →
+        a85Decode (pre ++ c :: rest) = .err .transform) ∧
+    -- 4. a `~` that is part of neither `<~` nor `~>`
+    (∀ (pre rest : Bytes), (strip pre).getLast? ≠ some 0x3C → (strip rest).head? ≠ some 0x3E →
+        a85Decode (pre ++ 0x7E :: rest) = .err .transform) ∧
+    -- 5. a `z` after one to four digits of a group, in whichever group
+    (∀ (pre rest p s ds : Bytes), A85Whole p s → (∀ b ∈ ds, IsDig b) → 1 ≤ ds.length ∧ ds.length ≤ 4 →
+        strip pre = s ++ ds → a85Decode (pre ++ 0x7A :: rest) = .err .transform) ∧
+    -- 6. a final group of one digit: dropped if `!`..`r`, rejected if `s`, `t`, `u`
+    (∀ (content p s : Bytes) (d : UInt8), A85Whole p s → IsDig d → strip content = s ++ [d, 0x7E, 0x3E] →
+        a85Decode content = if d.toNat ≤ 114 then .ok p else .err .transform) ∧
+    -- 7. five digits worth 2^32 or more, in whichever group, whatever follows
+    (∀ (content p s rest : Bytes) (x0 x1 x2 x3 x4 : UInt8), A85Whole p s →
+        IsDig x0 → IsDig x1 → IsDig x2 → IsDig x3 → IsDig x4 →
+        (x0.toNat - 33) * 52200625 + (x1.toNat - 33) * 614125 + (x2.toNat - 33) * 7225
+          + (x3.toNat - 33) * 85 + (x4.toNat - 33) ≥ 2 ^ 32 →
+        strip content = s ++ x0 :: x1 :: x2 :: x3 :: x4 :: rest → a85Decode content = .err .transform) :=
+  ⟨a85Decode_cases, a85_illegal_char_any, a85_uniws_interior, a85_stray_tilde, a85_z_inside_group_spec,
+   a85_single_digit_final, a85_group_overflow⟩
+
+/-! ### damaged zlib streams of stored blocks, through the Flate glue (proofs: Lemmas/InflateReject.lean) -/
+
+/-- **flate_stored_corrupt_is_error.**  For all payloads and all partitions into stored blocks,
+    whatever the filter parameters: every truncation (any cut point), every alteration of one byte
+    of the Adler-32 trailer, of one LEN / NLEN byte of any block (data-carrying or closing), of the
+    FCHECK bits and of CMF makes `FlateDecode::transform` return a `TransformError`. -/
+theorem flate_stored_corrupt_is_error (ext : Ext) (o : Option Dict) :
+    (∀ (parts : List Bytes), (∀ p ∈ parts, p.length ≤ 65535) → ∀ n, n < (zlibStored parts).length →
+        flateDecode ext o ((zlibStored parts).take n) = .err .transform) ∧
+    (∀ (parts : List Bytes), (∀ p ∈ parts, p.length ≤ 65535) → ∀ (i : Nat) (hi : i < 4) (v : UInt8),
+        v ≠ (be32Bytes (adler32 parts.flatten))[i]'(by simpa [be32Bytes] using hi) → ∀ trailing : Bytes,
+        flateDecode ext o ((zlibStored parts).set (2 + (storedBlocks parts).length + i) v ++ trailing)
+          = .err .transform) ∧
+    (∀ (ps qs : List Bytes) (p : Bytes), (∀ q ∈ ps ++ p :: qs, q.length ≤ 65535) →
+        ∀ (i : Nat) (hi : i < 4) (v : UInt8),
+        v ≠ (InflRej.lenHdr p.length)[i]'(by simpa [InflRej.lenHdr] using hi) → ∀ trailing : Bytes,
+        flateDecode ext o ((zlibStored (ps ++ p :: qs)).set (2 + (InflRej.storedNonfinal ps).length + 1 + i) v
+          ++ trailing) = .err .transform) ∧
+    (∀ (parts : List Bytes), (∀ p ∈ parts, p.length ≤ 65535) → ∀ (i : Nat) (hi : i < 4) (v : UInt8),
+        v ≠ (InflRej.lenHdr 0)[i]'(by simpa [InflRej.lenHdr] using hi) → ∀ trailing : Bytes,
+        flateDecode ext o ((zlibStored parts).set (2 + (InflRej.storedNonfinal parts).length + 1 + i) v
+          ++ trailing) = .err .transform) ∧
+    (∀ v : UInt8, v.toNat < 32 → v ≠ 0x01 → ∀ rest : Bytes,
+        flateDecode ext o (0x78 :: v :: rest) = .err .transform) ∧
+    (∀ c : UInt8, c ≠ 0x78 → ∀ rest : Bytes, flateDecode ext o (c :: 0x01 :: rest) = .err .transform) :=
+  ⟨fun parts h n hn => flateDecode_err_transform ext o _ _ (inflate_stored_truncated parts h n hn),
+   fun parts h i hi v hv tr => flateDecode_err_transform ext o _ _ (inflate_stored_adler_byte_set parts h i hi v hv tr),
+   fun ps qs p h i hi v hv tr => flateDecode_err_transform ext o _ _ (inflate_stored_len_byte_set ps qs p h i hi v hv tr),
+   fun parts h i hi v hv tr => flateDecode_err_transform ext o _ _ (inflate_stored_len_byte_set_final parts h i hi v hv tr),
+   fun v hlt hne rest => flateDecode_err_transform ext o _ _ (inflate_header_fcheck_altered v hlt hne rest),
+   fun c hne rest => flateDecode_err_transform ext o _ _ (inflate_header_cmf_altered c hne rest)⟩
+
+-- non-vacuity: the stream of parts [1,2,3] | [4] cut after 24 of its 25 bytes; its last trailer byte replaced
+example (ext : Ext) : flateDecode ext none ((zlibStored [[1, 2, 3], [4]]).take 24) = .err .transform :=
+  (flate_stored_corrupt_is_error ext none).1 [[1, 2, 3], [4]] (by decide) 24 (by decide)
+example (ext : Ext) : flateDecode ext none ((zlibStored [[1, 2, 3], [4]]).set (2 + (storedBlocks [[1, 2, 3], [4]]).length + 3) 12 ++ [7])
+    = .err .transform :=
+  (flate_stored_corrupt_is_error ext none).2.1 [[1, 2, 3], [4]] (by decide) 3 (by decide) 12 (by decide) [7]
+
+/-! ### fixed-Huffman blocks through the Flate glue (proofs: Lemmas/InflateFixed.lean) -/
+
+/-- **flate_fixed_roundtrip.**  `FlateDecode::transform` (predictor 1) returns exactly `payload` for
+    the zlib stream the specification's fixed-Huffman encoder writes from ANY valid LZ77
+    factorisation of `payload` — literals, <length, distance> pairs with every legal symbol / extra
+    bit choice, overlapping copies, copies reaching into earlier blocks, any cutting into blocks —
+    whatever follows the stream. -/
+theorem flate_fixed_roundtrip (ext : Ext) (o : Option Dict) (hpred : predictorOf o = 1)
+    (blocks : List (List DeflateFixed.Tok)) (last : List DeflateFixed.Tok) (payload trailing : Bytes)
+    (h : DeflateFixed.resolveBlocks (blocks ++ [last]) [] = some payload) :
+    flateDecode ext o (DeflateFixed.zlibFixedF blocks last payload ++ trailing) = .ok payload :=
+  flateDecode_ok ext o _ _ hpred (inflate_fixed_roundtrip_final blocks last payload trailing h)
+
+example (ext : Ext) : flateDecode ext (some []) (DeflateFixed.zlibFixedF [[.lit 97, .lit 98, .lit 99]] [.copy 6 0 2 0, .lit 33]
+      [97, 98, 99, 97, 98, 99, 97, 98, 99, 97, 98, 99, 33] ++ [0x0D, 0x0A]) =
+    .ok [97, 98, 99, 97, 98, 99, 97, 98, 99, 97, 98, 99, 33] :=
+  flate_fixed_roundtrip ext (some []) rfl _ _ _ _ (by decide)
 
 /-! ### witnesses of the repaired defects (pre-repair glue) -/
 
